@@ -119,6 +119,16 @@ Step(s, e, ln) ==
     [] e.ev = "build" -> OnBuild(s, e, ln)
     [] e.ev = "step" -> OnStep(s, e, ln)
     [] e.ev = "final" -> OnFinal(s, e, ln)
+    [] e.ev = "stress" ->
+         \* free-running threads (no baton): only logically decidable facts are recorded
+         [s EXCEPT !.cases = s.cases + 1,
+                   !.viol = s.viol
+                      \cup {<<e.case, ln, id, "lost wake-up / no progress in free-running stress">> :
+                               id \in IF e.stuck > 0 THEN Enforce \cap {"C10"} ELSE {}}
+                      \cup {<<e.case, ln, id, "wrong bytes or wrong terminal event in free-running stress">> :
+                               id \in IF e.mismatch > 0 THEN Enforce \cap {"C08", "C11"} ELSE {}}
+                      \cup {<<e.case, ln, id, "panic in free-running stress">> :
+                               id \in IF e.panics > 0 THEN Enforce \cap {"C20", "C10"} ELSE {}}]
     [] OTHER -> s
 
 Init == l = 1 /\ st = Init0
